@@ -545,6 +545,8 @@ def oracle(case, stats=None):
                 call = Call(s["entry"], s["pr"])
                 if not call.ok or s["entry"] == "op" and False:
                     continue
+                if s["pr"].get("glpk"):
+                    continue            # the options of the native solver are not used (nor validated) on the GLPK path
                 key, v = s["key"], s["v"]
                 bad = {"show_progress": False}
                 if key == "abstol+reltol":
